@@ -10,6 +10,7 @@ The unrefined half of the pipeline (one candidate per droplet within half a cell
 
 from __future__ import annotations
 
+import copy
 import itertools
 import json
 import math
@@ -118,6 +119,9 @@ def run_scenario(sc, seed):
                 warm = field.copy()
                 warm.data[...] = (field.data - vmin) / (vmax - vmin) * 2.5 + 1.5
                 locate_droplets(warm, threshold="extrema", refine=True, refine_args=ra)
+            if seed % 4 == 1:
+                # an earlier, deliberately sloppy analysis with options of its own: nothing of it may linger
+                locate_droplets(field, threshold=thr, refine=True, refine_args={**copy.deepcopy(ra), "tolerance": 1e-2})
             em = locate_droplets(field, threshold=thr, refine=True, refine_args=ra)
     except Exception as exc:  # noqa: BLE001
         return [f"raised {type(exc).__name__}: {str(exc)[:100]}"], None
